@@ -25,15 +25,15 @@ impl<C: Config, Q: Query> Snapshot<C, Q> {
         caller_information: &CallerInformation,
         backward_projection_lock_guard: BackwardProjectionLockGuard<C>,
     ) {
+        #[cfg(feature = "verif_hooks")]
+        crate::engine::verif::yield_point("backward_projection::before_edges")
+            .await;
+
         // SAFETY: We are reading our own backward edges, which we've already
         // acquired the lock for.
         let backward_edges = unsafe {
             self.engine().get_backward_edges_unchecked(self.query_id()).await
         };
-
-        #[cfg(feature = "verif_hooks")]
-        crate::engine::verif::yield_point("backward_projection::after_edges")
-            .await;
 
         let mut backward_projections = Vec::new();
         for query_id in backward_edges {
